@@ -4,6 +4,7 @@
 import VfsModel.Adapters
 import VfsModel.Leaf
 import VfsModel.Embedded
+import VfsModel.AsyncOps
 import Driver.Codec
 namespace Vfs.Driver
 open Vfs
@@ -169,6 +170,12 @@ def stepWorld (s : DState) (toks : List String) : Option (String × DState) :=
     let id ← parseNat id
     let l ← parseNat l
     pure ("ok", { s with roots := setAt s.roots id (some { fs := leafFS l, fsId := id, path := [] }) })
+  | "fs" :: id :: "aleaf" :: [l] => do
+    -- AsyncMemoryFS over memory leaf `l` (VfsModel/AsyncOps.lean): the model of the async-only code,
+    -- driven by the async stream next to the real async port
+    let id ← parseNat id
+    let l ← parseNat l
+    pure ("ok", { s with roots := setAt s.roots id (some { fs := aleafFS l, fsId := id, path := [] }) })
   | "fs" :: id :: "alt" :: inner :: [p] => do
     let id ← parseNat id
     let inner ← parseNat inner
